@@ -55,4 +55,16 @@ CLAIMED["C17"] = {
     "note": TRUST,
 }
 
+CLAIMED["C07"] = {
+    "technique": "finite order-type evaluation of the three termination writers over the CFG (conservation of the per-thread counter against the runtime's own not-terminated test) + must-follow path rule + truth-table over the vote guard's order atoms + who-may-broadcast / who-may-write tables",
+    "text": ("Decided on every run: (1) for every ordering of (stored marker, event time) relative to the constants the code compares with — including "
+             "timestamp 0 and SIMTIME_MAX — the counter of LPs still to end moves exactly with the marker's not-terminated status in init, forward "
+             "event and rollback; a newly terminated LP records exactly the event time; a rollback at or before that time un-terminates, a later one "
+             "does not; (2) each of the 3 do_rollback sites is followed on every path by the termination undo with the causing message's timestamp; "
+             "(3) over all models of the vote guard's atoms a thread votes only if (counter == 0 and max time strictly below GVT) or GVT >= "
+             "termination time; (4) the termination message is broadcast only under fetch_sub(thr_to_end) == 1 or by RootsimStop, the node counter "
+             "has two writers, and the worker loop re-reads it atomically. NOT decided: that the recorded predicate value was computed on a committed state."),
+    "note": TRUST + " Valid event timestamps are taken to lie in [0, SIMTIME_MAX].",
+}
+
 NOT_APPLICABLE = {}
